@@ -17,7 +17,7 @@ use std::time::Duration;
 pub static INFO: PropInfo = PropInfo {
     id: "C20",
     level: "exploration",
-    rule: "one evaluation = one session of the real NetcodeServerTransport and 1-5 NetcodeClientTransports over 127.0.0.1 UDP sockets, single-threaded with virtual durations, through an in-path relay (one front socket the clients believe is the server, one back socket per client) that applies a seeded schedule to the real datagrams: drop, duplicate, delay / reorder, replay of old datagrams, bit corruption; applications submit messages on all three channel kinds both ways, disconnect from either side / either layer at seeded ticks, and reconnect with the same client id; secure and unsecure authentication; in a third of the secure runs the connect tokens live 2-8 s only, so sessions outlive the token they were established with (a client whose token ran out before it connected is owed nothing). Oracles: right after every NetcodeServerTransport::update the server has no disconnected-but-present connection, the message layer's connected ids equal the ids the transport has an address for, and both counts agree; ServerEvents per id alternate Connected/Disconnected starting with Connected; every application- or peer-initiated disconnect is visible on the other side within timeout + 1 s of virtual time; every obtained message is a byte-identical submission of the same client / channel, in order on ordered channels and at most once on reliable ones; in interference-only runs (every timeout window sees a genuine datagram delivered each way) no session ends unless an application asked for it; every datagram seen by the relay is <= 1400 bytes. Non-trivial = the relay interfered (drop/dup/delay/replay/corrupt) AND at least one client connected AND at least one disconnect was propagated; distinct = fingerprints of the session history (connects, disconnects, message counts). In half of the clean-relay runs one client (with an id of its own) is MUTED: the relay drops every server-to-client session datagram for it, so the server holds its session while the client is still answering the challenge; its application then disconnects (client or transport API) and the server side must be gone within 6 ticks. A quarter of the runs end their fault phase with a SERVER SHUTDOWN: 0-2 message-layer kicks (RenetServer::disconnect) are left pending and NetcodeServerTransport::disconnect_all is called in the same frame; the netcode layer must be empty at once, every session gets its ClientDisconnected and every client ends. At the end of every run the last event per id must agree with both layers. A third of the runs also have a HOST PLAYER: a local client of the same RenetServer (new_local_client, pumped with process_local_client every tick after the transport's send_packets) exchanging ordered messages with the server; it has no netcode session (excluded from the lock-step comparison), must never be reported disconnected, and its ordered streams must be complete and in order at the end of the run. One run in 16 is a VANISHED-SERVER run instead: one client (its UDP socket connected to the server's address in 2 of 3 runs) and a server transport, direct; after some traffic the server transport is dropped (socket closed) and the client, still being updated and still sending, must be disconnected within timeout + 1 s of virtual time. During the fault phase the client limit is changed at run time now and then (set_max_clients(1..8), also below the number connected): the lock-step comparison must keep holding, nobody loses a session for it. A quarter of the runs with two or more clients are CROWDED: one slot too few at first, so somebody is denied; the relay holds half of the ConnectionDenied datagrams back, the server application frees a slot at tick 10, and a client that got in afterwards is shown its stale denial, which must not end its session. One run in 20 is a TWO-SERVERS run: a token lists two servers sharing the private key on one host; the first (behind a relay socket) accepts the client and streams, but everything after its challenge is held back; the client fails over to the second server; then the held datagrams of the first are delivered from the first address: the client application must obtain only what the second server submitted.",
+    rule: "one evaluation = one session of the real NetcodeServerTransport and 1-5 NetcodeClientTransports over 127.0.0.1 UDP sockets, single-threaded with virtual durations, through an in-path relay (one front socket the clients believe is the server, one back socket per client) that applies a seeded schedule to the real datagrams: drop, duplicate, delay / reorder, replay of old datagrams, bit corruption; applications submit messages on all three channel kinds both ways, disconnect from either side / either layer at seeded ticks, and reconnect with the same client id; secure and unsecure authentication; in a third of the secure runs the connect tokens live 2-8 s only, so sessions outlive the token they were established with (a client whose token ran out before it connected is owed nothing). Oracles: right after every NetcodeServerTransport::update the server has no disconnected-but-present connection, the message layer's connected ids equal the ids the transport has an address for, and both counts agree; ServerEvents per id alternate Connected/Disconnected starting with Connected; every application- or peer-initiated disconnect is visible on the other side within timeout + 1 s of virtual time; every obtained message is a byte-identical submission of the same client / channel, in order on ordered channels and at most once on reliable ones; in interference-only runs (every timeout window sees a genuine datagram delivered each way) no session ends unless an application asked for it; every datagram seen by the relay is <= 1400 bytes. Non-trivial = the relay interfered (drop/dup/delay/replay/corrupt) AND at least one client connected AND at least one disconnect was propagated; distinct = fingerprints of the session history (connects, disconnects, message counts). In a fifth of the hostile runs one client is HASTY: the relay holds its Response datagrams back, its application disconnects as soon as one has left, and the relay releases the responses together with the Disconnect datagram - the server sees the completed handshake and its end within one transport update and must report ClientConnected before ClientDisconnected. In half of the clean-relay runs one client (with an id of its own) is MUTED: the relay drops every server-to-client session datagram for it, so the server holds its session while the client is still answering the challenge; its application then disconnects (client or transport API) and the server side must be gone within 6 ticks. A quarter of the runs end their fault phase with a SERVER SHUTDOWN: 0-2 message-layer kicks (RenetServer::disconnect) are left pending and NetcodeServerTransport::disconnect_all is called in the same frame; the netcode layer must be empty at once, every session gets its ClientDisconnected and every client ends. At the end of every run the last event per id must agree with both layers. A third of the runs also have a HOST PLAYER: a local client of the same RenetServer (new_local_client, pumped with process_local_client every tick after the transport's send_packets) exchanging ordered messages with the server; it has no netcode session (excluded from the lock-step comparison), must never be reported disconnected, and its ordered streams must be complete and in order at the end of the run. One run in 16 is a VANISHED-SERVER run instead: one client (its UDP socket connected to the server's address in 2 of 3 runs) and a server transport, direct; after some traffic the server transport is dropped (socket closed) and the client, still being updated and still sending, must be disconnected within timeout + 1 s of virtual time. During the fault phase the client limit is changed at run time now and then (set_max_clients(1..8), also below the number connected): the lock-step comparison must keep holding, nobody loses a session for it. A quarter of the runs with two or more clients are CROWDED: one slot too few at first, so somebody is denied; the relay holds half of the ConnectionDenied datagrams back, the server application frees a slot at tick 10, and a client that got in afterwards is shown its stale denial, which must not end its session. One run in 20 is a TWO-SERVERS run: a token lists two servers sharing the private key on one host; the first (behind a relay socket) accepts the client and streams, but everything after its challenge is held back; the client fails over to the second server; then the held datagrams of the first are delivered from the first address: the client application must obtain only what the second server submitted.",
     assumptions: &[
         "single-threaded endpoints, loopback delivery is effectively synchronous; a datagram the relay misses arrives one tick later (a legal delay)",
         "bounds are on virtual time (durations passed to update), never wall-clock",
@@ -158,6 +158,10 @@ struct World {
     /// clean-relay scenario: every server->client session datagram (keep-alive, payload, disconnect) for this peer is
     /// dropped, so the server holds its session while the client is still answering the challenge
     muted: Option<usize>,
+    /// a client whose responses the relay holds back until its Disconnect datagram shows up: the server then sees the
+    /// completed handshake and the disconnect within one transport update
+    hasty: Option<usize>,
+    hasty_held: Vec<Vec<u8>>,
     /// a host player: a LOCAL client of the same RenetServer (listen-server setup); it has no netcode session
     host: Option<Host>,
     /// ConnectionDenied datagrams the relay held back (peer, generation, bytes): the client keeps asking, gets in
@@ -592,6 +596,8 @@ fn one_run_inner(ctx: &Ctx, out: &mut Outcome, run_seed: u64) {
         server_closed: HashMap::new(),
         silenced: None,
         muted: None,
+        hasty: None,
+        hasty_held: Vec::new(),
         host: None,
         withheld_denied: Vec::new(),
         stale_denied_shown: HashMap::new(),
@@ -636,6 +642,13 @@ fn one_run_inner(ctx: &Ctx, out: &mut Outcome, run_seed: u64) {
             out.count("runs_with_muted_client");
         }
     }
+    if !interference_only && w.muted.is_none() && r.chance(1, 5) {
+        let unique: Vec<usize> = (0..w.peers.len()).filter(|k| w.peers.iter().filter(|p| p.id == w.peers[*k].id).count() == 1).collect();
+        if !unique.is_empty() {
+            w.hasty = Some(*r.pick(&unique));
+            out.count("runs_with_hasty_client");
+        }
+    }
     // crowded: one slot fewer than clients at first (somebody is denied; the relay holds some denials back), a slot is
     // freed a little later by the server application
     let crowded = n_clients >= 2 && r.chance(1, 4);
@@ -667,7 +680,8 @@ fn one_run_inner(ctx: &Ctx, out: &mut Outcome, run_seed: u64) {
                 if w.peers[k].app_closed {
                     // maybe reconnect with the same id once the old session is gone on the server
                     if r.chance(1, 30) && !w.server.is_connected(id) && w.st.client_addr(id).is_none() && w.peers[k].closed_at_ms.map_or(false, |t| w.now_ms > t + timeout_ms + 1500) {
-                        let g = w.peers[k].generation + 1;
+                        // generations are unique per id (twins of one id may both reconnect, one after the other)
+                        let g = w.peers.iter().filter(|p| p.id == id).map(|p| p.generation).max().unwrap_or(0) + 1;
                         match w.new_peer(&mut r, id, g) {
                             Ok(p) => {
                                 w.log(format!("reconnect id {} generation {}", id, g));
@@ -679,6 +693,28 @@ fn one_run_inner(ctx: &Ctx, out: &mut Outcome, run_seed: u64) {
                                 return;
                             }
                         }
+                    }
+                    continue;
+                }
+                if w.hasty == Some(k) && w.peers[k].generation == 0 {
+                    // the application gives up right after its first responses left: the relay releases them together
+                    // with the Disconnect datagram
+                    if !w.hasty_held.is_empty() && w.peers[k].transport.disconnect_reason().is_none() {
+                        let who = if r.chance(1, 2) {
+                            w.peers[k].client.disconnect();
+                            "client_app"
+                        } else {
+                            w.peers[k].transport.disconnect();
+                            "client_transport"
+                        };
+                        out.count("disconnect_during_handshake_batched_with_the_response");
+                        w.log(format!("DISCONNECT id {} by {} right after its response left (relay delivers response and disconnect together)", id, who));
+                        let p = &mut w.peers[k];
+                        p.app_closed = true;
+                        p.closed_at_ms = Some(w.now_ms);
+                        p.closed_by = who;
+                        pending_closed_checks.push((k, p.generation, u64::MAX, who));
+                        fp.u64(0xD15E ^ id);
                     }
                     continue;
                 }
@@ -1346,6 +1382,27 @@ fn relay_in(w: &mut World, r: &mut Rng, cfg: &RelayCfg, faults_on: bool, to_serv
     if !to_server && w.muted == Some(peer) && generation == 0 && !bytes.is_empty() && (bytes[0] & 0xF) >= 4 {
         out.count("relay_muted_session_datagram");
         return;
+    }
+    if to_server && w.hasty == Some(peer) && generation == 0 && !bytes.is_empty() {
+        match bytes[0] & 0xF {
+            3 => {
+                if w.hasty_held.len() < 3 {
+                    w.hasty_held.push(bytes.to_vec());
+                }
+                out.count("relay_held_back_response_of_hasty_client");
+                return;
+            }
+            6 if !w.hasty_held.is_empty() => {
+                for b in std::mem::take(&mut w.hasty_held) {
+                    w.flight.push(InFlight { at: tick, to_server, peer, generation, bytes: b, genuine: true });
+                }
+                w.flight.push(InFlight { at: tick, to_server, peer, generation, bytes: bytes.to_vec(), genuine: true });
+                out.count("relay_released_response_and_disconnect_together");
+                *acted = true;
+                return;
+            }
+            _ => {}
+        }
     }
     if !to_server && !bytes.is_empty() && (bytes[0] & 0xF) == 1 && w.withheld_denied.len() < 8 && r.chance(1, 2) {
         out.count("relay_held_back_connection_denied");
